@@ -85,7 +85,7 @@ Definition run_chk (fs : node) (roots : list path) (c : chk) : N :=
   | CQ sf q ei eg py =>
       let self := script_module roots sf in
       (if res_eqb (obs false (jedi_query false fs roots self q)) ei then 0 else 1) +
-      (if is_heuristic self q || res_eqb (obs true (jedi_query true fs roots self q)) eg then 0 else 2) +
+      (if res_eqb (obs true (jedi_query true fs roots self q)) eg then 0 else 2) +
       match py with
       | Some (D, e) => if res_eqb (py_query fs roots D q) e then 0 else 4
       | None => 0
@@ -256,10 +256,12 @@ def gen_queries(rng, T, n_importers, per):
                 if level and rng.random() < 0.35:
                     path = path[:1]
                 r = rng.random()
-                if r < 0.55 and len(path) >= 1 and (level or len(path) >= 2):
+                if r < 0.55 and len(path) >= 1 and (level or len(path) >= 2) and path[-1] not in own_attrs:
                     q = dict(level=level, path=path[:-1], name=path[-1], probe=None)
                 elif r < 0.85:
                     q = dict(level=level, path=path, name=rng.choice(ATTRS), probe=None)
+                    if q['name'] in own_attrs:
+                        continue
                 else:
                     q = dict(level=level, path=path, name=None, probe=None)
             if q['name'] is None and q['probe'] is None and not q['path']:
@@ -690,7 +692,7 @@ def stream_trees(ctx):
         tasks.append((i, T, qs, ctx.tmp))
     results = common.pmap(_tree_task, tasks, chunksize=1)
     dist = dict(forms={}, oracle_kinds={}, self_kinds={}, roots={}, nested_roots=0, beyond=0, skipped_rel=0,
-                heuristic=0, self_import=0)
+                heuristic=0)
     items, metas = [], []
     pending = []          # property deviations waiting for the model's prediction
     for (idx, T, qs, _), R in zip(tasks, results):
@@ -762,10 +764,6 @@ def stream_trees(ctx):
             is_main = selfn == ['__main__']
             x = q['name'] if q['name'] is not None else q['probe']
             at = abs_target(selfn, self_pkg, is_main, q)
-            if x is not None and at is not None and at == selfn:
-                # `from <this very module> import x`: the statement itself rebinds x in the analysed buffer
-                dist['self_import'] += 1
-                continue
             dist['forms'][form] = dist['forms'].get(form, 0) + 1
             heuristic = at is None
             dist['heuristic'] += heuristic
